@@ -296,6 +296,22 @@ def scenarios(tier):
     # 9v. a rate below one packet per second
     sc.append({"name": "arp-subpps-rate", "args": ["arp", "--json", "--rate", "9/10s", "--exclude", "{dir}/rexcl", "--exit-delay", "300ms", "10.9.3.0/28"], "files": {"rexcl": "10.9.3.14/31\n"}, "maxMs": 30000,
                "expect": packet_expect("arp", target(net30, 28, exclude=[{"ip": [10, 9, 3, 14], "len": 31}]), [[]], [14], 300, rate={"n": 9, "winMs": 10000, "winNs": 0}, srcip=[10, 9, 0, 1], dstmac=[255] * 6)})
+    # 9w. one processor: the number of packet builders follows the number of processors
+    sc.append({"name": "arp-one-cpu", "args": ["arp", "--json", "--exit-delay", "300ms", "10.9.3.0/28"], "env": ["GOMAXPROCS=1"],
+               "inject": [{"bytes": arp_reply(a(2), m2), "afterProbe": 1, "delayMs": 20}],
+               "expect": packet_expect("arp", target(net30, 28), [[]], [16], 300, srcip=[10, 9, 0, 1], dstmac=[255] * 6)})
+    sc.append({"name": "tcp-one-cpu", "args": ["tcp", "syn", "--json", "-p", "80-83"] + COMMON + ["--exit-delay", "300ms", "10.9.3.0/30"], "files": {"empty": ""}, "env": ["GOMAXPROCS=1"],
+               "expect": packet_expect("tcpsyn", target(net30, 30, [rng(80, 83)]), [[rng(80, 83)]], [16], 300)})
+    # 9x. the exclusion list read from something that is not a regular file (/dev/stdin on a pipe)
+    sc.append({"name": "arp-exclude-from-pipe", "args": ["arp", "--json", "--exclude", "/dev/stdin", "--exit-delay", "300ms", "10.9.3.0/29"], "stdin": "# not these\n10.9.3.4/30\n",
+               "expect": packet_expect("arp", target(net30, 29, exclude=[{"ip": [10, 9, 3, 4], "len": 30}]), [[]], [4], 300, srcip=[10, 9, 0, 1], dstmac=[255] * 6)})
+    sc.append({"name": "socks-exclude-from-pipe", "args": ["socks", "--json", "-p", "1080", "--exclude", "/dev/stdin", "10.200.0.16/29"], "listen": [1080], "stdin": "10.200.0.20/30\n",
+               "expect": {"kind": "app", "scan": "socks", "target": target([10, 200, 0, 16], 29, [rng(1080, 1080)], exclude=[{"ip": [10, 200, 0, 20], "len": 30}])}})
+    # 9y. more answering endpoints than the process may hold descriptors: every probe gives its connections back
+    sc.append({"name": "docker-fd-limit", "args": ["docker", "--json", "--proto", "http", "-p", "2375", "-w", "8", "10.200.0.0/25"], "servers": {"2375": "json"}, "ulimitN": 64, "maxMs": 30000,
+               "expect": dict(hexp(target([10, 200, 0, 0], 25, [rng(2375, 2375)]), 3, 128), scan="docker", hosts=True)})
+    sc.append({"name": "elastic-fd-limit", "args": ["elastic", "--json", "-p", "9200", "-w", "8", "10.200.0.0/25"], "servers": {"9200": "json"}, "ulimitN": 64, "maxMs": 30000,
+               "expect": dict(hexp(target([10, 200, 0, 0], 25, [rng(9200, 9200)]), 2, 128), hosts=True)})
     # 10. targets that are not IPv4 are refused before anything is sent
     for i, t in enumerate(["::1", "::ffff:10.9.3.1/126", "fe80::1/64", "10.9.3.1/33", "10.9.3"]):
         sc.append({"name": "refuse-%d" % i, "args": ["tcp", "syn", "--json", "-p", "80"] + COMMON + ["--exit-delay", "300ms", t], "files": {"empty": ""}, "maxMs": 6000,
